@@ -395,17 +395,17 @@ Proof. exact center_shift_near. Qed.
 
 (* one column, whatever it comes from: all its values (the flat pseudo-sample is one of them) within r of v  =>
    the reference log2 within r of v -- by the RANGE property of the biweight location alone -- and
-   spread^2 <= 997 r^2 (midvariance as coded: c = 9, scale floor 1e-3, MAD fallback 1.4826 MAD) *)
+   spread^2 <= 62 r^2 (midvariance as coded: c = 9, scale floor 1e-3, MAD fallback 1.4826 MAD) *)
 Theorem C05_bounded_noise_column : forall col v r,
   (2 <= length col)%nat -> (forall x, In x col -> Qabs (x - v) <= r) ->
-  Qabs (consensus_log2 col - v) <= r /\ consensus_spread_sq col <= 997 * (r * r).
+  Qabs (consensus_log2 col - v) <= r /\ consensus_spread_sq col <= 62 * (r * r).
 Proof. exact column_near. Qed.
 
 (* 1. + 2.  A bin the centre is taken over (autosomal, PAR-X).  v = centred profile + flat shift (the flat level
    is 0 there).  Every file's centred, shifted value is within 2 eps of v (eps of noise + eps the centring moved);
    the column is flat :: those values, so with R = max (2 eps) |flat - v| the reference log2 is within R of v and
-   spread^2 <= 997 R^2; when the centred profile is 0 at the bin (= the flat level), R = 2 eps and
-   spread^2 <= 3988 eps^2. *)
+   spread^2 <= 62 R^2; when the centred profile is 0 at the bin (= the flat level), R = 2 eps and
+   spread^2 <= 248 eps^2. *)
 Theorem C05_bounded_noise_log2 : forall hap build sexes skip files base eps,
   files <> [] -> existsb is_auto_bin base = true -> no_low skip base files ->
   (forall s, In s files -> exists d, noisy_like build base eps s d) ->
@@ -424,8 +424,8 @@ Theorem C05_bounded_noise_log2 : forall hap build sexes skip files base eps,
        consensus_spread_sq (block_column hap build sexes skip files i) <= spread_K * (eps * eps)).
 Proof. exact bounded_noise_auto. Qed.
 
-(* the same theorem read for the spread alone, with the constants written out: K = 997 per squared radius,
-   3988 = 997 * 4 per eps^2 *)
+(* the same theorem read for the spread alone, with the constants written out: K = 62 per squared radius,
+   248 = 62 * 4 per eps^2 *)
 Theorem C05_bounded_noise_spread : forall hap build sexes skip files base eps,
   files <> [] -> existsb is_auto_bin base = true -> no_low skip base files ->
   (forall s, In s files -> exists d, noisy_like build base eps s d) ->
@@ -433,8 +433,8 @@ Theorem C05_bounded_noise_spread : forall hap build sexes skip files base eps,
   exists c, center_shift median true skip build base = Some c /\
     let a := b_log2 (nth i base d0) + c in
     consensus_spread_sq (block_column hap build sexes skip files i)
-      <= 997 * (Qmax2 (2 * eps) (Qabs a) * Qmax2 (2 * eps) (Qabs a)) /\
-    (a == 0 -> consensus_spread_sq (block_column hap build sexes skip files i) <= 3988 * (eps * eps)).
+      <= 62 * (Qmax2 (2 * eps) (Qabs a) * Qmax2 (2 * eps) (Qabs a)) /\
+    (a == 0 -> consensus_spread_sq (block_column hap build sexes skip files i) <= 248 * (eps * eps)).
 Proof. exact bounded_noise_spread. Qed.
 
 (* 3.  X bins of any male / female mix: with a the bin's centred baseline, the reference X lies within
@@ -500,9 +500,9 @@ Proof. exact bounded_noise_y_mixed. Qed.
 
 (* 4.  The property's tolerance: |delta| <= 0.15 is reached by 2 eps at eps = 3/40 = 0.075; the literal constants *)
 Theorem C05_bounded_noise_tolerance :
-  spread_K_radius == 997 /\ spread_K == 3988 /\ tolerance == 15 # 100 /\ tolerance_eps == 75 # 1000 /\
+  spread_K_radius == 62 /\ spread_K == 248 /\ tolerance == 15 # 100 /\ tolerance_eps == 75 # 1000 /\
   (forall eps, eps <= tolerance_eps -> 2 * eps <= tolerance) /\
-  (forall eps, 0 <= eps -> eps <= 1 # 422 -> spread_K * (eps * eps) <= tolerance * tolerance).
+  (forall eps, 0 <= eps -> eps <= 1 # 105 -> spread_K * (eps * eps) <= tolerance * tolerance).
 Proof.
   split; [reflexivity|]. split; [reflexivity|]. split; [reflexivity|]. split; [reflexivity|].
   split; [exact tolerance_radius|exact tolerance_spread].
@@ -553,11 +553,11 @@ Proof. exact sy_hypotheses. Qed.
 
 (* ... and its pooled reference (both reference sexes) is 1/32, 0, -1/32 on each autosome, x + 1/32 on X and
    -1 + 1/32 on Y: off the ideal levels 0 / x / -1 but within 2 eps = 1/8 of them, with spread^2 > 0 in six of the
-   eight bins and <= 3988 eps^2 in all (sy_check) *)
+   eight bins and <= 248 eps^2 in all (sy_check) *)
 Example C05_example_bounded_noise : sy_check true = true /\ sy_check false = true.
 Proof. vm_compute. split; reflexivity. Qed.
 
-(* the constant 997 cannot be lowered below 400/361 = 1.108: flat -1 and one sample at +1 are within r = 1 of
+(* the constant 62 cannot be lowered below 400/361 = 1.108: flat -1 and one sample at +1 are within r = 1 of
    v = 0, the location is 0, spread^2 = 400/361 *)
 Example C05_example_spread_lower :
   Qred (consensus_log2 [-1; 1]) = 0 /\ Qred (consensus_spread_sq [-1; 1]) = 400 # 361.
